@@ -92,7 +92,7 @@ EXPORT errno_t _strprefix_s_chk(const char *dest, rsize_t dmax, const char *src,
     }
 
     /* TODO: if src and dmax are at least a word long, compare wordwise */
-    while (*src && dmax) {
+    while (dmax && *src) {
 
         if (*dest != *src) {
             return (ESNOTFND);
